@@ -54,8 +54,22 @@ def env_for(var, val):
 
 def fuse_key(repo: Repo, val):
     f, loop, var, key_expr, ctor, call = fuse_site(repo)
+    env = env_for(var, val)
     try:
-        return fold_env(key_expr, env_for(var, val))
+        return fold_env(key_expr, env)
+    except NotConstant:
+        pass
+    # the key is held in a local: evaluate the loop body up to the fuse site
+    env[f"{var}.rows"] = ("row",)
+
+    def stop(node):
+        return any(x is call for x in ast.walk(node))
+
+    res = [r for r in run_paths(loop.body, env, loop_iters=(0,), stop_at=stop) if r["stopped"] is not None]
+    if len(res) != 1 or res[0]["unknown_conds"]:
+        raise AnalysisError(f"fuse key '{norm(key_expr)}': {len(res)} feasible paths reach the fuse site for {val} (or a condition on the way is not a function of tag/haplotype/name)")
+    try:
+        return fold_env(key_expr, res[0]["env"])
     except NotConstant as e:
         raise AnalysisError(f"fuse key '{norm(key_expr)}' is not a function of the piece's tag/haplotype/name: {e}")
 
